@@ -120,14 +120,33 @@ impl GenerateConfig {
 
     /// Load configuration from a file
     pub fn from_file<P: AsRef<Path>>(path: P) -> Result<Self, ConfigError> {
+        let config = Self::from_file_unvalidated(path)?;
+        config.validate()?;
+        Ok(config)
+    }
+
+    /// Load configuration from a file without validating it. For callers that apply overrides
+    /// (command-line flags) on top of the file and validate the merged result.
+    pub fn from_file_unvalidated<P: AsRef<Path>>(path: P) -> Result<Self, ConfigError> {
         let content = fs::read_to_string(path)?;
         let config: Self = serde_json::from_str(&content)?;
-        config.validate()?;
         Ok(config)
     }
 
     /// Load configuration from Tauri configuration file
     pub fn from_tauri_config<P: AsRef<Path>>(path: P) -> Result<Option<Self>, ConfigError> {
+        let config = Self::from_tauri_config_unvalidated(path)?;
+        if let Some(config) = &config {
+            config.validate()?;
+        }
+        Ok(config)
+    }
+
+    /// Load configuration from Tauri configuration file without validating it (see
+    /// `from_file_unvalidated`)
+    pub fn from_tauri_config_unvalidated<P: AsRef<Path>>(
+        path: P,
+    ) -> Result<Option<Self>, ConfigError> {
         let content = fs::read_to_string(path)?;
         let tauri_config: serde_json::Value = serde_json::from_str(&content)?;
 
@@ -184,7 +203,6 @@ impl GenerateConfig {
                     config.force = Some(force);
                 }
 
-                config.validate()?;
                 return Ok(Some(config));
             }
         }
